@@ -427,12 +427,15 @@ pub fn compile(path: &Path, src: &str) -> Result<Compilation, CompilationError> 
             "Main package missing main function".to_string(),
         ));
     }
-    let (mono, monoenv, unbounded) = mono::mono_with_diagnostics(genv.clone(), core.clone());
+    let (mono, monoenv, unbounded, bad_operands) = mono::mono_with_all_diagnostics(genv.clone(), core.clone());
     if !unbounded.is_empty() {
         return Err(compile_error(format!(
             "cannot specialise {}: it is instantiated at ever larger types (polymorphic recursion is not supported)",
             unbounded.join(", ")
         )));
+    }
+    if !bad_operands.is_empty() {
+        return Err(compile_error(bad_operands.join("; ")));
     }
     let (lifted_core, liftenv) = lift::lambda_lift(monoenv.clone(), &gensym, mono.clone());
     let (anf, anfenv) = anf::anf_file(liftenv.clone(), &gensym, lifted_core.clone());
